@@ -61,6 +61,12 @@ compose_info(uint8_t *buffer,
   size_t ret = 0;
   size_t rem_size = buf_size;
 
+  /* array, id, id_context, alg, type, out_len with their CBOR heads */
+  if ((id_context && id_context->length > 0xffff) ||
+      1 + 3 + (id ? id->length : 0) + 3 + (id_context ? id_context->length : 0) +
+      2 + 2 + type->length + 2 > buf_size)
+    return 0;
+
   ret += oscore_cbor_put_array(&buffer, &rem_size, 5);
   ret += oscore_cbor_put_bytes(&buffer,
                                &rem_size,
